@@ -126,8 +126,12 @@ def r1(ctx, R):
         R.violation("C07.R1", agg.short, "loop covers scope_list and the none-scope", loc(agg, scope_loop), f"the checkers run over {sorted(srcs)}: " + ("top-level declarations outside any program unit are not checked" if "none_scope" not in srcs else "scopes are missing"))
     # (3) end_errors -> one diagnostic each
     el = [lp for lp in loops if "end_errors" in unparse(lp.iter)]
+    # ... or a comprehension over end_errors whose elements are diagnostics, extended / added to the result
+    comp = [c for c in calls_in(agg.node) if isinstance(c.func, ast.Attribute) and c.func.attr in ("extend",) and isinstance(c.func.value, ast.Name) and c.func.value.id in res and c.args and isinstance(c.args[0], (ast.ListComp, ast.GeneratorExp)) and any("end_errors" in unparse(g_.iter) for g_ in c.args[0].generators) and not any(g_.ifs for g_ in c.args[0].generators) and isinstance(c.args[0].elt, ast.Call) and unparse(c.args[0].elt.func) == "Diagnostic"]
     if el and any(isinstance(c.func, ast.Attribute) and c.func.attr == "append" and isinstance(c.func.value, ast.Name) and c.func.value.id in res for c in calls_in(el[0])):
         R.ok("C07.R1", agg.short, "one diagnostic per unexpected END", loc(agg, el[0]))
+    elif comp:
+        R.ok("C07.R1", agg.short, "one diagnostic per unexpected END", loc(agg, comp[0]), "comprehension over end_errors")
     else:
         R.violation("C07.R1", agg.short, "one diagnostic per unexpected END", loc(agg, agg.node), "end_errors recorded by the parser are not turned into diagnostics")
     # (4) parse errors returned
@@ -216,6 +220,17 @@ def r2(ctx, R):
         if isinstance(par, ast.Call) and isinstance(par.func, ast.Attribute) and par.func.attr in ("append", "extend", "insert"):
             R.ok("C07.R2", f.short, k, loc(f, c), "constructed inside append()")
             continue
+        # element of a comprehension / generator / display that is itself appended, extended, added or returned
+        up = par
+        while isinstance(up, (ast.ListComp, ast.GeneratorExp, ast.List, ast.Tuple, ast.IfExp, ast.Starred)):
+            up = ctx.m.parent.get(up)
+        if up is not par:
+            if isinstance(up, ast.Call) and isinstance(up.func, ast.Attribute) and up.func.attr in ("append", "extend", "insert"):
+                R.ok("C07.R2", f.short, k, loc(f, c), "constructed inside extend(<comprehension>)")
+                continue
+            if isinstance(up, ast.Return) or (isinstance(up, ast.AugAssign) and isinstance(up.op, ast.Add)):
+                R.ok("C07.R2", f.short, k, loc(f, c), "constructed inside the returned / added sequence")
+                continue
         if isinstance(st, ast.Return):
             R.ok("C07.R2", f.short, k, loc(f, c), "returned directly")
             continue
